@@ -243,3 +243,62 @@ def cylindrical(S):
     for i in range(2):
         S.claim_eq(f'holo[{i}]', hv[i], _abs2(alpha * fv[i, 0] + a / n) + _abs2(alpha * fv[i, 1] + b / n))
     S.claim('coords_x', np.allclose(holo.x.values, det.x.values) and np.allclose(holo.y.values, det.y.values))
+
+
+# ---------------------------------------------------------------------------
+# history independence with the real analytic lens theory
+# ---------------------------------------------------------------------------
+
+@obligation('C01.history.mielens', functions=['holopy.scattering.theory.mielens.MieLens.raw_fields',
+                                              'holopy.scattering.theory.mielensfunctions.MieLensCalculator.__init__',
+                                              'holopy.scattering.theory.mielensfunctions.MieLensCalculator._precompute_scattering_matrices',
+                                              'holopy.scattering.theory.mielensfunctions.MieLensCalculator._direct_eval_mielens_i_n',
+                                              'holopy.scattering.theory.mielensfunctions.MieScatteringMatrix._eval',
+                                              'holopy.scattering.theory.mielensfunctions.AlBlFunctions.calculate_al_bl'],
+            stubs=['scipy.special spherical_jn/yn, j0, j1 := uninterpreted atoms'], angle_mode='atoms', timeout_s=180,
+            nvalid=2, cost=3,
+            bounds='the REAL MieLens calculator (3 quadrature nodes, max_l = 4) for one sphere and two lens angles, '
+                   'evaluated in the orders (A, B) and - after re-importing the theory modules, i.e. fresh module '
+                   'state - (B, A): each result is the same in both orders; 1 symbolic detector point, symbolic kz')
+def history_mielens(S):
+    import importlib
+    import holopy.scattering.theory.mielensfunctions as mlf
+    import holopy.scattering.theory.mielens as ml_mod
+    from props.C02 import bessel_atoms
+    from props.C08 import _bessel_stubs
+
+    def fresh():
+        m1 = importlib.reload(mlf)
+        m2 = importlib.reload(ml_mod)
+        if S.sym:
+            shim_np(S, m1)
+            shim_np(S, m2)
+        bessel_atoms(S)
+        _bessel_stubs(S)
+        S.patch(m1.MieScatteringMatrix, '_default_max_l', lambda self: 4, both=True)
+        return m2
+    if S.sym:
+        for m in (meta, utils, hm):
+            shim_np(S, m)
+    krho = S.real('krho', lo=0.5, hi=300)
+    phi = S.angle('phi', 0, 2)
+    kz = S.real('kz')
+    from props import mlcommon as mc
+    acc = {'quad_npts': 3, 'interpolate_integrals': False}
+
+    def run(mod, angle):
+        th = mod.MieLens(lens_angle=angle, calculator_accuracy_kwargs=acc)
+        pos = mc.positions(S, [krho], [phi], kz)
+        return th.raw_fields(pos, Sphere(n=1.59, r=0.5, center=(0, 0, 0)), 7.0, 1.33, mc.pol_vector(S, 0))
+    A, B = 0.6, 0.9
+    mod = fresh()
+    a1 = run(mod, A)
+    b1 = run(mod, B)
+    a1_again = run(mod, A)
+    mod = fresh()
+    b2 = run(mod, B)
+    a2 = run(mod, A)
+    S.observe('a1', a1)
+    S.claim_eq('B_same_after_A_as_first', b1, b2)
+    S.claim_eq('A_same_after_B_as_first', a2, a1)
+    S.claim_eq('A_repeatable', a1_again, a1)
